@@ -311,17 +311,22 @@ type OutSpec struct {
 
 // TxSpec describes one transaction completely (replayable without the generator).
 type TxSpec struct {
-	From     int       `json:"from"`    // initiator / signer ring index
-	Seq      int       `json:"seq"`     // nonce / timestamp counter
-	Version  int32     `json:"version"` // 1..3
-	Ins      []InRef   `json:"ins,omitempty"`
-	Outs     []OutSpec `json:"outs,omitempty"`
-	Prog     []Ins     `json:"prog,omitempty"` // contract program ($verif.Run)
-	Contract string    `json:"contract,omitempty"`
-	ConAmt   int64     `json:"conamt,omitempty"` // amount transferred to the contract with the call
-	Desc     string    `json:"desc,omitempty"`
-	Coinbase bool      `json:"coinbase,omitempty"` // adversarial: coinbase flag on a submitted transaction
+	From     int               `json:"from"`    // initiator / signer ring index
+	Seq      int               `json:"seq"`     // nonce / timestamp counter
+	Version  int32             `json:"version"` // 1..3
+	Ins      []InRef           `json:"ins,omitempty"`
+	Outs     []OutSpec         `json:"outs,omitempty"`
+	Prog     []Ins             `json:"prog,omitempty"` // contract program ($verif.Run)
+	Contract string            `json:"contract,omitempty"`
+	ConAmt   int64             `json:"conamt,omitempty"` // amount transferred to the contract with the call
+	Desc     string            `json:"desc,omitempty"`
+	Coinbase bool              `json:"coinbase,omitempty"` // adversarial: coinbase flag on a submitted transaction
+	Method   string            `json:"method,omitempty"`   // with Args: call Contract.Method(Args) instead of $verif.Run(Prog)
+	Args     map[string]string `json:"args,omitempty"`
 }
+
+// IsContract tells whether the spec carries a contract invocation.
+func (s *TxSpec) IsContract() bool { return len(s.Prog) > 0 || s.Method != "" }
 
 func (r InRef) addr() string {
 	if r.Addr >= 0 {
@@ -392,7 +397,16 @@ func PreExecOn(mg contract.Manager, spec *TxSpec, xr kledger.XMReader, ur contra
 		cname = VerifContract
 	}
 	initiator := Ring[spec.From].Address
-	req := &protos.InvokeRequest{ModuleName: "xkernel", ContractName: cname, MethodName: "Run", Args: EncodeProg(spec.Prog)}
+	method := "Run"
+	args := EncodeProg(spec.Prog)
+	if spec.Method != "" {
+		method = spec.Method
+		args = map[string][]byte{}
+		for k, v := range spec.Args {
+			args[k] = []byte(v)
+		}
+	}
+	req := &protos.InvokeRequest{ModuleName: "xkernel", ContractName: cname, MethodName: method, Args: args}
 	cfg := &contract.ContextConfig{State: sb, Initiator: initiator, AuthRequire: []string{initiator},
 		Module: "xkernel", ContractName: cname, ResourceLimits: contract.MaxLimits}
 	if spec.ConAmt > 0 {
@@ -404,7 +418,7 @@ func PreExecOn(mg contract.Manager, spec *TxSpec, xr kledger.XMReader, ur contra
 		res.Err = err
 		return res
 	}
-	resp, err := ctx.Invoke("Run", req.Args)
+	resp, err := ctx.Invoke(method, req.Args)
 	if err != nil {
 		ctx.Release()
 		res.Err = err
